@@ -594,7 +594,7 @@ theorem seg_sub (hs : (rd.h.mtype == cfg.mtSubscribe || rd.h.mtype == cfg.mtResu
     rw [live_upd _ _ _ _ huid halv, hlive0]
     simp [Spec.get_uid hget]
   obtain ⟨hck, n⟩ := ack_part hperm hs0 t0 ls tL jL rd.uid hu0 _ hxu q evs (by rw [hout]; exact he)
-  have hW : Spec.CoreExt others ((Spec.afterBuf cfg a rd).upd rd.uid (Spec.subUpdA cfg ty add))
+  have hW : Spec.CoreExt othersCore ((Spec.afterBuf cfg a rd).upd rd.uid (Spec.subUpdA cfg ty add))
       (Spec.checkDepartures cfg (Spec.checkAcks cfg ((Spec.afterBuf cfg a rd).upd rd.uid (Spec.subUpdA cfg ty add))
         rd.uid true evs) none evs) := by
     rw [hck]
